@@ -384,6 +384,8 @@ def explore(chk, rng, n, tag):
         elif info["phase"] == "done":
             chk.count("server:ended-and-restarted")
     for _ in range(n):
+        if chk.saturated():
+            break
         seed = rng.randrange(2 ** 30)
         cause = rng.choice(CAUSES)
         point = rng.choice(POINTS)
